@@ -761,7 +761,8 @@ def gen_seq_list(rng):
             spec["progs"].append([rng.randrange(0, horizon + 1), ch, rng.randrange(0, 128)])
         for _ in range(rng.choice([0, 0, 0, 1])):
             spec["ccs"].append([rng.randrange(0, horizon + 1), ch, rng.randrange(0, 120), rng.randrange(0, 128)])
-        out.append({"spec": spec, "mode": rng.choice(["abs", "rel", "both", f"insert:{rng.randrange(1, 1 << 20)}"])})
+        out.append({"spec": spec, "mode": rng.choice(["abs", "rel", "both", f"insert:{rng.randrange(1, 1 << 20)}",
+                                                      f"insert2:{rng.randrange(1, 1 << 20)}"])})
         if rng.random() < 0.25:
             out[-1]["hist"] = [_gen_hist_op(rng, ch) for _ in range(rng.randrange(1, 4))]
     if n >= 2 and rng.random() < 0.1:
